@@ -23,6 +23,18 @@ import tempfile
 from .. import core
 
 PROP = "C05"
+
+
+def fail(report, clause, trigger, case, impl=None, detail=""):
+    """report.fail, keeping at most 3 instances of each (clause, trigger): the list of failures is bounded
+    and the many repetitions of a known finding must not crowd out a new one"""
+    seen = report.__dict__.setdefault("_fail_counts", {})
+    n = seen.get((clause, trigger), 0)
+    seen[(clause, trigger)] = n + 1
+    if n < 3:
+        report.fail(clause, trigger, case, impl, detail)
+    else:
+        report.count(f"repeated_failure:{clause}:{trigger}")
 NAN = float("nan")
 INF = float("inf")
 
@@ -219,7 +231,7 @@ def probe(env: Env, report, kind, cfg, label="probe", left=None, right=None):
     key = (label, kind, json.dumps(case["cfg"], sort_keys=True, default=str), json.dumps([left, right], default=str))
     report.case(key=key, nontrivial=True, sample={"kind": kind, "cfg": case["cfg"], "impl": impl})
     if not ci.same_value(before, cfg):
-        report.fail("user_dict_untouched", "construct_mutates", case, impl)
+        fail(report, "user_dict_untouched", "construct_mutates", case, impl)
     if any(isinstance(v, str) and v in ("NaN", "inf", "-inf") for v in cfg.values()):
         # the strings update_conf rewrites are specified at the check_conf level (stream `magic`):
         # given directly to a class they are only compared with the model
@@ -229,7 +241,7 @@ def probe(env: Env, report, kind, cfg, label="probe", left=None, right=None):
         if kind not in ("optimization", "semantic_segmentation"):
             report.hit("unknown_method")
             if status == "ok":
-                report.fail("unknown_method", f"{kind}:accepted", case, impl)
+                fail(report, "unknown_method", f"{kind}:accepted", case, impl)
         return impl
     verdict = doc["verdict"]
     rejecting = [(p, d) for p, d in doc["params"] if d == "reject"]
@@ -246,14 +258,14 @@ def probe(env: Env, report, kind, cfg, label="probe", left=None, right=None):
                 clause = "step_not_1"
             elif not isinstance(v, (int, float)) or isinstance(v, bool):
                 clause = "wrong_type" if not is_nan_list(v) else "rejects_outside_domain"
-            report.fail(clause, trig, case, impl, f"documented domain refuses {p}={short(ci.to_wire(v))}")
+            fail(report, clause, trig, case, impl, f"documented domain refuses {p}={short(ci.to_wire(v))}")
     elif verdict == "accept":
         report.hit("accepts_inside_domain")
         for p in params:
             report.hit(f"accepts_inside_domain:{doc['class']}.{p}")
         if status != "ok":
             p = params[0] if params else "<none>"
-            report.fail("accepts_inside_domain", f"{doc['class']}.{p}={value_tag(cfg.get(p))}", case, impl,
+            fail(report, "accepts_inside_domain", f"{doc['class']}.{p}={value_tag(cfg.get(p))}", case, impl,
                         "every parameter is inside its documented domain")
     else:
         report.count("undecided_probe")
@@ -264,17 +276,17 @@ def probe(env: Env, report, kind, cfg, label="probe", left=None, right=None):
         spec = env.lean.call("C05.spec_step", kind=kind, user=case["cfg"], result=impl["out"])
         report.hit("user_keys_kept")
         if not spec["user_keys_kept"]:
-            report.fail("user_keys_kept", f"{doc['class']}", case, impl, "a user key changed value or position")
+            fail(report, "user_keys_kept", f"{doc['class']}", case, impl, "a user key changed value or position")
         report.hit("defaults_added")
         if not spec["defaults_added"]:
-            report.fail("defaults_added", f"{doc['class']}", case, impl,
+            fail(report, "defaults_added", f"{doc['class']}", case, impl,
                         "an omitted parameter is missing, has another value than documented, or something else was added")
         # idempotence on the step
         again = ci.construct(kind, ci.snapshot(out), lmeta, rmeta)
         report.hit("idempotent")
         if again[0] != "ok" or not ci.same_value(again[1], out):
             trig = "nan_in_list" if any(is_nan_list(v) for v in cfg.values()) else f"{doc['class']}"
-            report.fail("idempotent", trig, case, {"first": impl, "second": [again[0], ci.to_wire(again[1]) if again[0] == "ok" else again[1]]})
+            fail(report, "idempotent", trig, case, {"first": impl, "second": [again[0], ci.to_wire(again[1]) if again[0] == "ok" else again[1]]})
     return impl
 
 
@@ -517,7 +529,7 @@ def check_pipeline(env: Env, report, machine, state, user, left, right, label, f
     report.count(f"{label}.len_{min(len(steps), 6)}")
     report.count(f"{label}.{'accepted' if status == 'ok' else out}")
     if not ci.same_value(before, user):
-        report.fail("user_dict_untouched", "pipeline_mutated", case, impl)
+        fail(report, "user_dict_untouched", "pipeline_mutated", case, impl)
     else:
         report.hit("user_dict_untouched")
     if fresh and isinstance(user, dict) and isinstance(user.get("pipeline"), dict):
@@ -529,20 +541,20 @@ def check_pipeline(env: Env, report, machine, state, user, left, right, label, f
             if isinstance(exc, (KeyboardInterrupt, SystemExit)):
                 raise
         if not ci.same_value(direct, before):
-            report.fail("user_dict_untouched", "machine_check_conf_mutates", case, {"after": ci.to_wire(direct)},
+            fail(report, "user_dict_untouched", "machine_check_conf_mutates", case, {"after": ci.to_wire(direct)},
                         "PandoraMachine.check_conf changed the dictionary it was given")
     verdict = model["verdict"]
     if fresh:
         if verdict == "accept":
             report.hit("accepts_inside_domain:pipeline")
             if status != "ok":
-                report.fail("accepts_inside_domain", pipeline_trigger(user, left, right), case, impl,
+                fail(report, "accepts_inside_domain", pipeline_trigger(user, left, right), case, impl,
                             "the documentation accepts every step and parameter of this pipeline")
         elif verdict == "reject":
             report.hit("rejects_outside_domain:pipeline")
             if status == "ok":
                 trig = "nan_in_list" if any_nan_list(user) else pipeline_trigger(user, left, right)
-                report.fail("rejects_outside_domain", trig, case, impl, "the documentation refuses this pipeline")
+                fail(report, "rejects_outside_domain", trig, case, impl, "the documentation refuses this pipeline")
         else:
             report.count("undecided_pipeline")
     if status == "ok" and isinstance(pipe, dict):
@@ -552,13 +564,13 @@ def check_pipeline(env: Env, report, machine, state, user, left, right, label, f
             report.hit("defaults_added:pipeline")
             if not spec["result_ok"]:
                 bad = [n for n, ok in spec["kept"] if not ok]
-                report.fail("user_keys_kept" if bad else "defaults_added", "pipeline:" + (bad[0].split(".")[0] if bad else "completion"),
+                fail(report, "user_keys_kept" if bad else "defaults_added", "pipeline:" + (bad[0].split(".")[0] if bad else "completion"),
                             case, impl, f"same_steps={spec['same_steps']} kept={spec['kept']}")
         else:
             report.count("history.same_steps" if spec["same_steps"] else "history.extra_steps")
             bad = [n for n, ok in spec["kept"] if not ok]
             if bad:
-                report.fail("user_keys_kept", "history:" + bad[0].split(".")[0], case, impl)
+                fail(report, "user_keys_kept", "history:" + bad[0].split(".")[0], case, impl)
         # idempotence: the returned configuration, checked again (fresh machine), comes back unchanged
         m2 = ci.PandoraMachine()
         s2, o2 = ci.check_pipeline_section(m2, ci.snapshot(out), lmeta, rmeta)
@@ -570,7 +582,7 @@ def check_pipeline(env: Env, report, machine, state, user, left, right, label, f
                 trig = "nan_in_list"
             else:
                 trig = pipeline_trigger(user, left, right)
-            report.fail("idempotent", trig, case,
+            fail(report, "idempotent", trig, case,
                         {"first": impl, "second": [s2, ci.to_wire(o2) if s2 == "ok" else o2]},
                         "checking the returned configuration again does not return it unchanged")
     return status, new_state
@@ -715,13 +727,13 @@ def check_conf_case(env: Env, report, user_sym, label="check_conf", state=None, 
                 sample={"user": case["user_symbolic"], "impl": impl["status"]})
     report.count(f"{label}.{'accepted' if status == 'ok' else out}")
     if not ci.same_value(before, user):
-        report.fail("user_dict_untouched", "check_conf_mutated", case, impl)
+        fail(report, "user_dict_untouched", "check_conf_mutated", case, impl)
     if status == "ok":
         # every user leaf under input / pipeline keeps its (rewritten) value at the same key path
         report.hit("user_keys_kept:check_conf")
         miss = lost_paths(user, out)
         if miss:
-            report.fail("user_keys_kept", "check_conf:" + miss[0].split("/")[0], case, impl, f"lost or changed: {miss[:3]}")
+            fail(report, "user_keys_kept", "check_conf:" + miss[0].split("/")[0], case, impl, f"lost or changed: {miss[:3]}")
         # documented input defaults
         report.hit("defaults_added:input")
         for side in ("left", "right"):
@@ -729,12 +741,12 @@ def check_conf_case(env: Env, report, user_sym, label="check_conf", state=None, 
             uside = user["input"][side]
             for k, d in (("nodata", -9999), ("mask", None), ("classif", None), ("segm", None)):
                 if k not in uside and not (k in got and ci.same_value(got[k], d)):
-                    report.fail("defaults_added", f"input.{side}.{k}", case, impl)
+                    fail(report, "defaults_added", f"input.{side}.{k}", case, impl)
         s2, o2 = ci.check_conf(ci.PandoraMachine(), ci.snapshot(out))
         report.hit("idempotent:check_conf")
         if s2 != "ok" or not ci.same_value(o2, out):
             trig = "band_multichar" if False else "check_conf"
-            report.fail("idempotent", trig, case, {"first": impl, "second": [s2, ci.to_wire(o2) if s2 == "ok" else o2]})
+            fail(report, "idempotent", trig, case, {"first": impl, "second": [s2, ci.to_wire(o2) if s2 == "ok" else o2]})
     return status, out
 
 
@@ -830,12 +842,12 @@ def update_confs(env: Env, report):
             report.disagree("update_conf.error", case, impl, model)
         report.case(key=("update_conf", json.dumps(case, sort_keys=True, default=str)), nontrivial=bool(u), sample=None)
         if not (ci.same_value(d, d0) and ci.same_value(u, u0)):
-            report.fail("user_dict_untouched", "update_conf_mutates", case, impl)
+            fail(report, "user_dict_untouched", "update_conf_mutates", case, impl)
         if status == "ok":
             report.hit("nan_inf_strings:update_conf")
             miss = lost_paths_all(u0, out)
             if miss:
-                report.fail("user_keys_kept", "update_conf", case, impl, f"{miss[:3]}")
+                fail(report, "user_keys_kept", "update_conf", case, impl, f"{miss[:3]}")
 
 
 def lost_paths_all(user, out, prefix=""):
